@@ -143,6 +143,11 @@ class Interp:
                 self.oblige(kind, fr, node, what, self.path_goal(st), True, "assumption:" + key[1], status="assumed")
                 return
         import specs
+        if fr is not None and fr.fn is not None:
+            why = specs.documented_panic(fr.fn["path"], what)
+            if why:
+                self.oblige(kind, fr, node, what, self.path_goal(st), True, "documented: " + why, status="requires")
+                return
         if fr is not None and fr.fn is not None and fr.parent is not None and fr.parent.fn is None:
             why = specs.documented_require(fr.fn["path"], what)
             if why:
@@ -329,6 +334,8 @@ class Interp:
             return v.items[int(comp)]
         if isinstance(v, VTop):
             return VTop(v.why + "." + str(comp))
+        if comp == "0" and isinstance(v, (VNat, VSeq)):
+            return v       # transparent newtypes (NodeId, EdgeId, VecArray)
         raise Unsupported(f"project {comp} from {type(v).__name__}")
 
     def write_place(self, st, place, val):
@@ -361,6 +368,8 @@ class Interp:
             return VTup(items)
         if isinstance(v, VTop):
             return v
+        if comp == "0" and isinstance(v, (VNat, VSeq)):
+            return self._update(st, v, path[1:], val)
         raise Unsupported(f"update {comp} in {type(v).__name__}")
 
     def eval_place(self, e, st, fr):
@@ -511,11 +520,15 @@ class Interp:
                         nxt.extend(m)
                     states = nxt
                 return states, []
-            if isinstance(val, VTop):
+            if isinstance(val, (VTop, VUser)):
                 # unknown enum value: both outcomes possible
                 s2 = st.copy()
-                for p in pat["pats"]:
-                    self.match_pat(p, VTop(val.why), st, fr)
+                for i, p in enumerate(pat["pats"]):
+                    if isinstance(val, VUser) and name == "Some":
+                        inner = VNat(Poly.atom(("somev", val.key)))
+                    else:
+                        inner = VTop(getattr(val, "why", "user"))
+                    self.match_pat(p, inner, st, fr)
                 return [st], [s2]
             if isinstance(val, VNat) and name in ("NodeId", "EdgeId"):
                 return self.match_pat(pat["pats"][0], val, st, fr)
@@ -614,7 +627,7 @@ class Interp:
         if m is None:
             raise Unsupported("expr kind " + k + " at " + str(e.get("sp")))
         mac = e.get("mac")
-        if mac and fr.mac is None:
+        if mac and fr.mac is None and not mac[-1].startswith("desugar:"):
             prev = fr.mac
             fr.mac = mac[-1]
             try:
@@ -641,7 +654,7 @@ class Interp:
                 raise Unsupported(f"unbound local {r['name']} at {e.get('sp')}")
             v = st.env[key]
             adj = e.get("adj") or []
-            if isinstance(v, VMutRef) and "deref" in adj and "borrow_mut" not in adj:
+            if isinstance(v, VMutRef) and "deref" in adj and "borrow_mut" not in adj and not self.is_handle_type(e["ty"]):
                 v = self.read_place(st, v.place)
             return [(st, v, None)]
         if r["k"] == "def":
@@ -668,6 +681,13 @@ class Interp:
             return [(st, VFn("ctor", r["path"], {"name": r["path"].split("::")[-1], "ty": e["ty"]}), None)]
         raise Unsupported("path res " + str(r))
 
+    def is_handle_type(self, tyid):
+        """Rc<..> (possibly behind shared references): the abstract value is a handle to a heap cell."""
+        t = self.facts.ty(tyid)
+        while t is not None and t["k"] == "ref" and not t.get("mut"):
+            t = self.facts.ty(t["inner"])
+        return t is not None and t["k"] == "adt" and t["path"].endswith("rc::Rc")
+
     def ev_ctor(self, e, st, fr):
         tyd = self.facts.ty(e["ty"])
 
@@ -677,8 +697,8 @@ class Interp:
 
     def make_ctor(self, path, name, tyd, vals):
         if tyd["k"] == "adt" and tyd["path"] == path:
-            if name in ("NodeId", "EdgeId"):
-                return vals[0]    # transparent newtypes over usize
+            if name in ("NodeId", "EdgeId", "VecArray"):
+                return vals[0]    # transparent newtypes
             return VRec(path, {str(i): v for i, v in enumerate(vals)})
         enum = tyd["path"].split("::")[-1] if tyd["k"] == "adt" else "?"
         return VEnum(enum, name, vals)
@@ -1123,7 +1143,7 @@ class Interp:
             if f.kind == "ctor":
                 tyd = self.facts.ty(f.callee["ty"]) if f.callee else None
                 name = f.callee["name"]
-                if name in ("NodeId", "EdgeId"):
+                if name in ("NodeId", "EdgeId", "VecArray"):
                     return [(st, args[0], None)]
                 if name in ("Some",):
                     return [(st, some(args[0]), None)]
